@@ -681,12 +681,80 @@ def _unroll(repo, rel, func, limit=40):
     return func
 
 
+def _module_scalar(repo, rel, name, depth=2):
+    """Constant node a module-level name is bound to exactly once (str,
+    bytes, number, bool, None), following ``from .m import NAME``; else
+    None.  A name that is stored anywhere else in the module (global
+    statement, augmented assignment, loop target) is not a constant."""
+    try:
+        tree = repo.tree(rel)
+    except Exception:
+        return None
+    val, n = None, 0
+    for node in ast.walk(tree):
+        if isinstance(node, ast.Name) and node.id == name \
+                and not isinstance(node.ctx, ast.Load):
+            n += 1
+        elif isinstance(node, ast.Global) and name in node.names:
+            return None
+        elif isinstance(node, (ast.FunctionDef, ast.ClassDef,
+                               ast.AsyncFunctionDef)) and node.name == name:
+            return None
+    for st in tree.body:
+        if isinstance(st, ast.Assign) and len(st.targets) == 1 \
+                and isinstance(st.targets[0], ast.Name) \
+                and st.targets[0].id == name:
+            val = st.value
+        elif isinstance(st, ast.AnnAssign) and st.value is not None \
+                and isinstance(st.target, ast.Name) \
+                and st.target.id == name:
+            val = st.value
+    if val is not None:
+        if n == 1 and isinstance(val, ast.Constant) and not isinstance(
+                val.value, type(Ellipsis)):
+            return val
+        return None
+    if n == 0 and depth > 0:
+        r = resolve_from_import(repo, rel, name)
+        if r is not None:
+            return _module_scalar(repo, r[0], r[1], depth - 1)
+    return None
+
+
+def fold_constants(repo, rel, func):
+    """replace loads of module-level scalar constants in `func` (in place)
+    by the constant: ``po.with_suffix(SUFFIX_TEMP)`` reads like the
+    literal it stands for"""
+    if repo is None:
+        return func
+    local = _stores([func]) | {a.arg for a in ast.walk(func)
+                               if isinstance(a, ast.arg)}
+    for n in ast.walk(func):
+        if isinstance(n, (ast.Global, ast.Nonlocal)):
+            local |= set(n.names)
+    cache = {}
+
+    class T(ast.NodeTransformer):
+        def visit_Name(self, node):
+            if not isinstance(node.ctx, ast.Load) or node.id in local:
+                return node
+            if node.id not in cache:
+                cache[node.id] = _module_scalar(repo, rel, node.id)
+            c = cache[node.id]
+            if c is None:
+                return node
+            return ast.copy_location(ast.Constant(value=c.value), node)
+    T().visit(func)
+    return func
+
+
 def canon(repo, rel, func, keep=(), depth=2, unroll=True):
     """copy of `func` with private helpers inlined, ``D.get(k)`` locals,
     ``.values()/.items()`` iteration, leading walrus tests and loops over literal tables brought
     to the canonical forms the rules are written against"""
     new = inline_helpers(repo, rel, func, depth=depth, keep=keep)
     parent = getattr(new, "parent", None)
+    new = fold_constants(repo, rel, new)
     ft = _FillToSlice()
     ft._top = None
     new = ft.visit(new)
